@@ -9,22 +9,23 @@ import (
 )
 
 // Value is one of:
-//   *Term            integers (bit-vector) and booleans (width 0)
-//   FloatV           float32/float64 (concrete only)
-//   StrV             string: concrete length, bytes are 8-bit terms
-//   *StructV         struct value (immutable)
-//   *ArrayV          array value (immutable)
-//   SliceV           slice header
-//   PtrV             pointer to a Cell (nil Cell = nil pointer)
-//   IfaceV           interface value (t == nil: nil interface)
-//   *MapObj          map (nil = nil map)
-//   *ClosureV        closure
-//   *ssa.Function    function value
-//   *ssa.Builtin     builtin
-//   nilFunc          nil function value
-//   TupleV           multiple results
-//   *RangeIter       iterator produced by ssa.Range
-//   *ChanObj         channel (minimal)
+//
+//	*Term            integers (bit-vector) and booleans (width 0)
+//	FloatV           float32/float64 (concrete only)
+//	StrV             string: concrete length, bytes are 8-bit terms
+//	*StructV         struct value (immutable)
+//	*ArrayV          array value (immutable)
+//	SliceV           slice header
+//	PtrV             pointer to a Cell (nil Cell = nil pointer)
+//	IfaceV           interface value (t == nil: nil interface)
+//	*MapObj          map (nil = nil map)
+//	*ClosureV        closure
+//	*ssa.Function    function value
+//	*ssa.Builtin     builtin
+//	nilFunc          nil function value
+//	TupleV           multiple results
+//	*RangeIter       iterator produced by ssa.Range
+//	*ChanObj         channel (minimal)
 type Value interface{}
 
 type FloatV float64
@@ -69,8 +70,8 @@ type nilFunc struct{}
 type TupleV []Value
 
 type ChanObj struct {
-	buf []Value
-	cap int
+	buf    []Value
+	cap    int
 	closed bool
 }
 
@@ -324,6 +325,14 @@ func (in *Interp) store(c *Cell, v Value) {
 			in.store(in.elem(c.arr, c.off+i), a.e[i])
 		}
 	}
+}
+
+// storeRaw stores without undo logging (permanent, interned objects).
+func (in *Interp) storeRaw(c *Cell, v Value) {
+	save := in.inInit
+	in.inInit = true
+	in.store(c, v)
+	in.inInit = save
 }
 
 func (in *Interp) mapTouch(m *MapObj) {
